@@ -33,7 +33,7 @@ import (
 // ---------------------------------------------------------------------------------------------
 
 type c09Fault struct {
-	Kind  string // sensorRead | sensorGarbage | rpmRead | pwmRead | pwmWrite | noExec
+	Kind  string // sensorRead | sensorGarbage | rpmRead | pwmRead | pwmWrite | fanReadBoth | noExec
 	Cycle int    // injected after this many completed control cycles
 	N     int    // number of consecutive accesses that fail
 }
@@ -59,7 +59,7 @@ func c09Scenarios(seed int64, n int, pairs bool) []c09Scenario {
 	for _, fk := range kinds {
 		for _, sk := range kinds {
 			for _, ck := range curvesK {
-				fks := []string{"sensorRead", "sensorGarbage", "rpmRead", "pwmRead", "pwmWrite"}
+				fks := []string{"sensorRead", "sensorGarbage", "rpmRead", "pwmRead", "pwmWrite", "fanReadBoth"}
 				if fk == "cmd" || sk == "cmd" {
 					fks = append(fks, "noExec")
 				}
@@ -273,50 +273,50 @@ func runC09Scenario(rec *Recorder, sc c09Scenario) {
 	sensorDir := filepath.Join(dir, "sensor")
 	cfg := RunCfg{Parallel: true, Dir: dir, Fans: []RunFan{rf}, RpmPollMs: []int{200, 1000}[r.Intn(2)]}
 	cfg.Setup = func(env *Env) {
-	// --- sensor
-	sid := "c09sensor"
-	scfg := configuration.SensorConfig{ID: sid}
-	must(os.MkdirAll(sensorDir, 0755))
-	temp := 45000 + r.Intn(30000)
-	switch sc.SensorKind {
-	case "hwmon":
-		p := env.Register("s.temp", "sensor/temp1_input", temp)
-		scfg.HwMon = &configuration.HwMonSensorConfig{Platform: "verif", Index: 1, TempInput: p}
-	case "file":
-		p := env.Register("s.temp", "sensor/temp", temp)
-		scfg.File = &configuration.FileSensorConfig{Path: p}
-	case "cmd":
-		must(os.WriteFile(filepath.Join(sensorDir, "value"), []byte(strconv.Itoa(temp)), 0644))
-		script := filepath.Join(sensorDir, "read.sh")
-		writeScript(script, fmt.Sprintf("m=$(cat %s 2>/dev/null)\ncase \"$m\" in\n fail) exit 3;;\n garbage) echo abc; exit 0;;\nesac\ncat %s\n",
-			filepath.Join(sensorDir, "fault"), filepath.Join(sensorDir, "value")))
-		scfg.Cmd = &configuration.CmdSensorConfig{Exec: script}
-	}
-	var err error
-	sensor, err = sensors.NewSensor(scfg)
-	must(err)
-	v, _ := sensor.GetValue()
-	sensor.SetMovingAvg(v)
-	sensors.RegisterSensor(sensor)
-	configuration.CurrentConfig.TempRollingWindowSize = 4
-	// --- curve
-	lin := configuration.CurveConfig{ID: "c09lin", Linear: &configuration.LinearCurveConfig{Sensor: sid, Min: 40, Max: 80}}
-	pid := configuration.CurveConfig{ID: "c09pid", PID: &configuration.PidCurveConfig{Sensor: sid, SetPoint: 50, P: -0.05, I: -0.005, D: -0.001}}
-	pid2 := configuration.CurveConfig{ID: "c09pid2", PID: &configuration.PidCurveConfig{Sensor: sid, SetPoint: 60, P: -0.02, I: -0.001, D: 0}}
-	// function curves: every aggregate, nesting a linear and a PID curve, only PID curves, or a single one
-	ftype := []string{"maximum", "minimum", "average", "delta", "sum", "difference"}[r.Intn(6)]
-	members := [][]string{{"c09lin", "c09pid"}, {"c09pid"}, {"c09pid", "c09pid2"}, {"c09pid", "c09lin"}}[r.Intn(4)]
-	fn := configuration.CurveConfig{ID: "c09fn", Function: &configuration.FunctionCurveConfig{Type: ftype, Curves: members}}
-	for _, cc := range []configuration.CurveConfig{lin, pid, pid2, fn} {
-		c, err := curves.NewSpeedCurve(cc)
+		// --- sensor
+		sid := "c09sensor"
+		scfg := configuration.SensorConfig{ID: sid}
+		must(os.MkdirAll(sensorDir, 0755))
+		temp := 45000 + r.Intn(30000)
+		switch sc.SensorKind {
+		case "hwmon":
+			p := env.Register("s.temp", "sensor/temp1_input", temp)
+			scfg.HwMon = &configuration.HwMonSensorConfig{Platform: "verif", Index: 1, TempInput: p}
+		case "file":
+			p := env.Register("s.temp", "sensor/temp", temp)
+			scfg.File = &configuration.FileSensorConfig{Path: p}
+		case "cmd":
+			must(os.WriteFile(filepath.Join(sensorDir, "value"), []byte(strconv.Itoa(temp)), 0644))
+			script := filepath.Join(sensorDir, "read.sh")
+			writeScript(script, fmt.Sprintf("m=$(cat %s 2>/dev/null)\ncase \"$m\" in\n fail) exit 3;;\n garbage) echo abc; exit 0;;\nesac\ncat %s\n",
+				filepath.Join(sensorDir, "fault"), filepath.Join(sensorDir, "value")))
+			scfg.Cmd = &configuration.CmdSensorConfig{Exec: script}
+		}
+		var err error
+		sensor, err = sensors.NewSensor(scfg)
+		must(err)
+		v, _ := sensor.GetValue()
+		sensor.SetMovingAvg(v)
+		sensors.RegisterSensor(sensor)
+		configuration.CurrentConfig.TempRollingWindowSize = 4
+		// --- curve
+		lin := configuration.CurveConfig{ID: "c09lin", Linear: &configuration.LinearCurveConfig{Sensor: sid, Min: 40, Max: 80}}
+		pid := configuration.CurveConfig{ID: "c09pid", PID: &configuration.PidCurveConfig{Sensor: sid, SetPoint: 50, P: -0.05, I: -0.005, D: -0.001}}
+		pid2 := configuration.CurveConfig{ID: "c09pid2", PID: &configuration.PidCurveConfig{Sensor: sid, SetPoint: 60, P: -0.02, I: -0.001, D: 0}}
+		// function curves: every aggregate, nesting a linear and a PID curve, only PID curves, or a single one
+		ftype := []string{"maximum", "minimum", "average", "delta", "sum", "difference"}[r.Intn(6)]
+		members := [][]string{{"c09lin", "c09pid"}, {"c09pid"}, {"c09pid", "c09pid2"}, {"c09pid", "c09lin"}}[r.Intn(4)]
+		fn := configuration.CurveConfig{ID: "c09fn", Function: &configuration.FunctionCurveConfig{Type: ftype, Curves: members}}
+		for _, cc := range []configuration.CurveConfig{lin, pid, pid2, fn} {
+			c, err := curves.NewSpeedCurve(cc)
+			must(err)
+			curves.RegisterSpeedCurve(c)
+		}
+		top := map[string]configuration.CurveConfig{"linear": lin, "pid": pid, "function": fn}[sc.CurveKind]
+		top.ID = "c09curve"
+		c, err := curves.NewSpeedCurve(top)
 		must(err)
 		curves.RegisterSpeedCurve(c)
-	}
-	top := map[string]configuration.CurveConfig{"linear": lin, "pid": pid, "function": fn}[sc.CurveKind]
-	top.ID = "c09curve"
-	c, err := curves.NewSpeedCurve(top)
-	must(err)
-	curves.RegisterSpeedCurve(c)
 
 	}
 	h := NewRunHarness(rec, cfg)
@@ -358,6 +358,15 @@ func runC09Scenario(rec *Recorder, sc c09Scenario) {
 			} else {
 				h.ReadFaultSkip("f1.pwm", f.N, f.N%2)
 			}
+		case "fanReadBoth":
+			// the device does not answer at all for a moment: RPM and PWM reads fail together (same RPM poll, same cycle)
+			if sc.FanKind == "cmd" {
+				fileFault(filepath.Join(cmdSub, "fault_rpm"), []string{"fail", "garbage"}[f.N%2])
+				fileFault(filepath.Join(cmdSub, "fault_get"), []string{"fail", "garbage"}[f.N/2%2])
+			} else {
+				h.ReadFaultSkip("f1.rpm", f.N+2, 0)
+				h.ReadFaultSkip("f1.pwm", f.N+2, f.N%3) // 0: from the feature probe on; 1, 2: the probe(s) succeed, the read fails
+			}
 		case "pwmWrite":
 			if sc.FanKind == "cmd" {
 				fileFault(filepath.Join(cmdSub, "fault_set"), "fail")
@@ -391,6 +400,13 @@ func runC09Scenario(rec *Recorder, sc c09Scenario) {
 		defer mu.Unlock()
 		if event == "LoopStarted" {
 			started = true
+		}
+		if event == "RestoreBegin" {
+			// the injected fault is over when regulation of the fan ends: what the restore sequence does with a device
+			// that refuses its writes as well is the subject of C03 (and excluded there when even full speed is refused)
+			for _, ff := range []string{"fault_set", "fault_get", "fault_rpm"} {
+				os.Remove(filepath.Join(cmdSub, ff))
+			}
 		}
 		if event == "RestoreEnd" {
 			// regulation of the fan ended (control error): stop soon
